@@ -362,4 +362,36 @@ theorem C16_error_no_change (db : Db) (now : Time) (rpc : Rpc) (h : (handle db n
   · exact h1
   · exact absurd h1 h
 
+/-! ### the pusher a push subscription gets
+
+An accepted `CreateSubscription` with a push endpoint makes the push service start a streamer for the
+subscription.  Its lease-renewal ticker runs at 9/20 of the subscription's minimum backoff — any
+positive number of nanoseconds passes the request validation — and `time.NewTicker` panics on a
+non-positive interval, in a goroutine nothing recovers. -/
+
+/-- the interval handed to `time.NewTicker`, for a minimum backoff of `minB` ns (absent: the default) -/
+def tickerInterval (floor : Int) (minB : Option Int) : Int :=
+  let delayAmount := (match minB with | some m => m | none => Extracted.defaultMinDelay) / 2
+  let checkInterval := delayAmount * 9 / 10
+  if checkInterval < floor then floor else checkInterval
+
+/-- **C16 (no request can make the pusher's ticker panic)**: whatever minimum backoff a subscription was
+    accepted with, the interval is positive — because the source keeps a positive floor under it
+    (regenerated fact) -/
+theorem C16_ticker_interval_positive :
+    Extracted.streamerTickerFloors ≠ [] ∧
+    ∀ f ∈ Extracted.streamerTickerFloors, 0 < f ∧ ∀ minB : Option Int, 0 < tickerInterval f minB := by
+  refine ⟨by simp [Extracted.streamerTickerFloors], ?_⟩
+  intro f hf
+  simp only [Extracted.streamerTickerFloors, List.mem_cons, List.mem_nil_iff, or_false] at hf
+  subst hf
+  refine ⟨by decide, ?_⟩
+  intro minB
+  unfold tickerInterval
+  simp only
+  split <;> omega
+
+/-- without the floor a minimum backoff of one nanosecond gives the interval 0 -/
+example : tickerInterval 0 (some 1) = 0 := by decide
+
 end Mmmbbb.Api
